@@ -162,6 +162,13 @@ CLAIMED = {
         "technique": "Rocq proof (state non-interference by reset discipline, induction over the type list, stable-sort/filter lemmas, overlay=directory simulation) + differential run of the shoot binary in five invocation modes vs the model, AST-level comparison",
         "coq_targets": ["Properties/C08.vo", "Corr/GenCorr.vo"],
     },
+    "C11": {
+        "text": "Machine-checked (Rocq) for all struct packages of the C03 grammar, all package views, the four -tagcase values and ALL values: makeJson's JSONList is exactly the fields Go selects that are exported or have an own or promoted accessor, in declaration order, each named by its explicit json tag else the -tagcase transform of its name; for any JSON encoder/decoder satisfying decode(encode kv) = kv on case-fold-distinct names, Unmarshal(Marshal(x)) into any w agrees with x on every exported field and every field with both accessors, gives zero to setter-only fields and leaves the rest of w untouched. Four open findings (uncompilable exported snake names, promoted MarshalJSON, lost promoted tags, nil embedded pointer) are refuted by Coq witnesses and replayed; three repaired ones have regression handlers. Tied to /repo on every run by executing json.Marshal / json.Unmarshal of the generated code on ~140 structs x 4 tag cases and comparing members, values and every field inside Coq.",
+        "design_ref": "DESIGN.md section 8, C11; section 13",
+        "note": COMMON_NOTE + "encoding/json is a Section parameter (one law) and is observed, not modelled; values are compared through their raw JSON text; explicit tags with options / `-` and colliding member names are outside the guard.",
+        "technique": "Rocq proof (filter characterisation of makeJson, refinement to Go's selector rule, round trip as a run of assignments on non-overlapping leaf paths with encoding/json as Section variables) + L1 probe + L2 differential execution of json.Marshal/Unmarshal on generated code vs model",
+        "coq_targets": ["Properties/C11.vo", "Corr/CtorJsonCorr.vo", "Corr/CtorDirectiveCorr.vo", "Corr/TransferCorr.vo"],
+    },
 }
 
 NOT_CLAIMED = {}
